@@ -356,6 +356,10 @@ func (eng *Engine) callMode(fn *ssa.Function) (string, *FuncContract) {
 	if fn.Synthetic != "" && len(fn.Blocks) > 0 && !strings.HasPrefix(fn.Synthetic, "instance of") {
 		return "inline", nil
 	}
+	// function literals without a contract of their own are executed in place
+	if fn.Parent() != nil && len(fn.Blocks) > 0 {
+		return "inline", nil
+	}
 	return "unknown", nil
 }
 
